@@ -207,6 +207,31 @@ def read (c : Cfg) (st : St) (o : Oracle) (buflen : Nat) : Outcome × St × Orac
     let (r, d', o') := readLoop c buflen st.drbg o buflen
     (r, { st with drbg := d' }, o')
 
+/-- put the bytes of an earlier piece in front of the answer of the rest -/
+def prepend {α : Type} (bits : Bytes) : Outcome × α × Oracle → Outcome × α × Oracle
+  | (.ok rest, s, o) => (.ok (bits ++ rest), s, o)
+  | r => r
+
+/-- the same request made as a sequence of calls: while more than `GENERATE_MAXLEN` bytes are wanted, one call of
+    `crypto_entropy_read` for exactly `GENERATE_MAXLEN` bytes, then one call for what is left (a request of at most
+    `GENERATE_MAXLEN` bytes, 0 included, is that one call); the sequence stops at the first call that does not succeed
+    and answers what that call answered.  `fuel` ≥ `buflen` suffices when `GENERATE_MAXLEN > 0`
+    (theorem `C11.read_eq_chunks`: this is what the single call `read c st o buflen` answers, state and unused OS
+    answers included). -/
+def readChunked (c : Cfg) : Nat → St → Oracle → Nat → Outcome × St × Oracle
+  | 0, st, o, buflen => if buflen > c.generateMaxlen then (.abort, st, o) else read c st o buflen
+  | fuel+1, st, o, buflen =>
+    if buflen > c.generateMaxlen then
+      match read c st o c.generateMaxlen with
+      | (.ok out, st', o') => prepend out (readChunked c fuel st' o' (buflen - c.generateMaxlen))
+      | r => r
+    else read c st o buflen
+
+/-- the sizes of the calls `readChunked` makes when none fails -/
+def chunkSizes (max : Nat) : Nat → Nat → List Nat
+  | 0, n => [n]
+  | fuel+1, n => if n > max then max :: chunkSizes max fuel (n - max) else [n]
+
 /-- a sequence of calls: the answers, the final state, the unused OS answers -/
 def runFull (c : Cfg) : St → Oracle → List Nat → List Outcome × St × Oracle
   | st, o, [] => ([], st, o)
